@@ -166,10 +166,31 @@ def gen_points(rnd, style, n):
         base = [[rnd.randint(-8, 8) for _ in range(3)] for _ in range(max(1, n - 2))]
         out = [[far if j == ax else 0 for j in range(3)], [-far if j == ax else 0 for j in range(3)]]
         return (base + out)[:max(n, 1)] if n >= 3 else base
+    if style == 'near-plane':
+        # integer points within a few units of the CENTRE PLANES of the octree boxes of a very large root box (extent
+        # ~1e7 .. 1e8, so that a relative 1e-6 of a box width is a few units): the places where sibling boxes meet, where
+        # independent rounding / overlap margins of the boxes decide whether a point reaches a leaf at all
+        E = rnd.choice([10 ** 7, 2 * 10 ** 7, 4 * 10 ** 7])      # 3 E^2 < 2^53: squared distances stay exact in binary64
+        lo = [rnd.randint(-5, 5) * 1000 for _ in range(3)]
+        out = [list(lo), [v + E for v in lo]]
+        c = [v + E / 2 for v in lo]
+        w0 = E * 0.51
+        while len(out) < max(n, 3):
+            pt = []
+            for ax in range(3):
+                L = rnd.randint(1, 4)
+                # planes where the children of a level-(L-1) box meet = centres of the level-(L-1) boxes
+                t = 0 if L == 1 else 2 * rnd.randrange(-(2 ** (L - 2)), 2 ** (L - 2)) + 1
+                plane = c[ax] + w0 * t / 2 ** (L - 1)
+                plane = min(max(plane, lo[ax]), lo[ax] + E)
+                pt.append(int(round(plane)) + rnd.choice([0, 0, 1, -1, 2, -2, 3, -3, 7, -7, 20, -20]))
+            pt = [min(max(v, lo[i]), lo[i] + E) for i, v in enumerate(pt)]
+            out.append(pt)
+        return out[:max(n, 3)]
     raise ValueError(style)
 
 
-STYLES = ['random', 'cluster', 'collinear', 'coplanar', 'lattice', 'duplicates', 'single']
+STYLES = ['random', 'cluster', 'collinear', 'coplanar', 'lattice', 'duplicates', 'single', 'near-plane']
 
 
 def gen_scene(rnd, i):
@@ -199,7 +220,15 @@ def sweep(rnd, T, Q, n_combo):
     real = sorted({d2(t, q) for t in T for q in Q})
     ms = {None, 0}
     for m in rnd.sample(real, min(3, len(real))):
-        ms |= {m, max(0, m - 1), m + 1}
+        if m < 2 ** 46:
+            ms |= {m, max(0, m - 1), m + 1}
+        else:
+            # sqrt(m) and sqrt(m +- 1) are the same binary64 number for such m: the bound is moved by a relative 2^-20
+            # instead and used only if no realised distance lies within a relative 2^-40 of it
+            ms.add(m)
+            for b in (m - (m >> 20), m + (m >> 20)):
+                if all(abs(d - b) > (b >> 40) for d in real):
+                    ms.add(b)
     combos = [(k, m) for k in ks for m in ms]
     rnd.shuffle(combos)
     # always keep one unbounded search beyond |T| and one on a tie value
